@@ -135,7 +135,7 @@ def variants(code: str, shift_ok: bool):
 # ------------------------------------------------------------------------------------------------
 # jobs
 # ------------------------------------------------------------------------------------------------
-def build_jobs(rng, per_codemod: int, variants_per_seed: int, only=None, include_corpus=True):
+def build_jobs(rng, per_codemod: int, variants_per_seed: int, only=None, include_corpus=True, priority=()):
     """One job per codemod.  A job is a list of subprojects; a subproject = files + optional result file.
     Find-and-fix seeds named code.py are batched into one subproject (one detector call per pass)."""
     seeds = [s for s in load_seeds() if s["expect_change"] and not s.get("lines_to_exclude")]
@@ -158,7 +158,14 @@ def build_jobs(rng, per_codemod: int, variants_per_seed: int, only=None, include
             ident = vs[0]
             rest = vs[1:]
             rng.shuffle(rest)
-            for vname, text in [ident] + rest[:max(0, variants_per_seed - 1)]:
+            # variants whose name starts with a `priority` prefix are always taken (one of each name), then random ones
+            prio, seen_names = [], set()
+            for v in rest:
+                if any(v[0].startswith(p) for p in priority) and v[0] not in seen_names:
+                    prio.append(v)
+                    seen_names.add(v[0])
+            others = [v for v in rest if v not in prio]
+            for vname, text in [ident] + prio + others[:max(0, variants_per_seed - 1)]:
                 if not parses(text):
                     continue
                 if s["tool"] is None and s["filename"] == "code.py":
